@@ -40,6 +40,9 @@ CHECKS = {
  "C17": dict(technique="TLC lemmas over Compare.tla + TLC-computed exact fraction against kalign_msa_compare's result (CompareTrace)",
              text="Compare.tla defines the score as an exact fraction; TLC checks its lemmas (range, 100 on equivalent alignments, invariance under all-gap columns) over all pairs of small alignments; CompareTrace recomputes the fraction for the two alignments handed to every real call (enumerated tiny pairs from files in 3 formats, run-vs-run, run-vs-itself, permuted/padded/perturbed copies, mixed case) and requires agreement within 1e-3, 100 on equivalent alignments, and the range [0,100].",
              note="float score compared in 1e-4 units with 1e-3 tolerance; sampled except tiny pairs", ref="DESIGN 5.C17"),
+ "C13": dict(technique="TLC model checking of the histogram rule against the requirement over all small compositions + TLC validation of kalign's decision on concretised compositions (BiotypeTrace)",
+             text="Biotype.tla states the requirement on residue letters and a model of the code's likelihood rule; TLC shows over all class-count vectors up to 9 residues where they agree (the U-rich region is the documented known finding; a twin config exhibits it). BiotypeTrace checks kalign's decision (after kalign_read_input for FASTA/aligned FASTA/Clustal/MSF and inside kalign()) for every premise-satisfying vector up to 9-12 residues, large compositions with reordered/renamed copies, gap-heavy alignments and inputs of more than 512 records.",
+             note="compositions enumerated by letter class, letters within a class sampled; one known finding (U-rich proteins)", ref="DESIGN 5.C13"),
 }
 NOT_YET = {}
 ALL = ["C%02d" % i for i in range(1, 18)]
